@@ -838,11 +838,15 @@ func (i *interpreter) numError(fn, s string, err error) value {
 func ext۰strconv۰ParseInt(fr *frame, args []value) value {
 	s, ok := args[0].(string)
 	if !ok {
+		if !fr.i.isNumText(args[0]) {
+			// ordinary symbolic input bytes: strconv is executed from SSA
+			return notModelled{}
+		}
 		return fr.i.uninterpretedParse("ParseInt", args)
 	}
 	n, err := strconv.ParseInt(s, int(fr.i.concretize(args[1], nil)), int(fr.i.concretize(args[2], nil)))
 	if err != nil {
-		return tuple{n, fr.i.mkError(err.Error())}
+		return notModelled{} // the real *strconv.NumError is built from SSA
 	}
 	return tuple{n, iface{}}
 }
@@ -850,11 +854,15 @@ func ext۰strconv۰ParseInt(fr *frame, args []value) value {
 func ext۰strconv۰ParseUint(fr *frame, args []value) value {
 	s, ok := args[0].(string)
 	if !ok {
+		if !fr.i.isNumText(args[0]) {
+			// ordinary symbolic input bytes: strconv is executed from SSA
+			return notModelled{}
+		}
 		return fr.i.uninterpretedParse("ParseUint", args)
 	}
 	n, err := strconv.ParseUint(s, int(fr.i.concretize(args[1], nil)), int(fr.i.concretize(args[2], nil)))
 	if err != nil {
-		return tuple{n, fr.i.mkError(err.Error())}
+		return notModelled{} // the real *strconv.NumError is built from SSA
 	}
 	return tuple{n, iface{}}
 }
@@ -896,6 +904,24 @@ func ext۰strconv۰Quote(fr *frame, args []value) value {
 		return strconv.Quote(s)
 	}
 	return notModelled{}
+}
+
+// isNumText: the text contains an opaque vNumText byte.
+func (i *interpreter) isNumText(v value) bool {
+	ss, ok := v.(symstr)
+	if !ok {
+		return false
+	}
+	for _, b := range ss.b {
+		if sb, ok := b.(sym); ok && sb.t.name != "" {
+			for _, vi := range i.ps.vars {
+				if vi.Kind == "numtext" && vi.Name == sb.t.name {
+					return true
+				}
+			}
+		}
+	}
+	return false
 }
 
 // uninterpretedParse models strconv.ParseInt/ParseUint on a symbolic
@@ -1646,6 +1672,8 @@ func registerModels() {
 		"internal/bytealg.CountString":             ext۰bytealg۰CountString,
 		"internal/bytealg.Count":                   ext۰bytealg۰Count,
 		"internal/bytealg.IndexString":             ext۰bytealg۰IndexString,
+		"internal/stringslite.Clone":               func(fr *frame, args []value) value { return args[0] },
+		"strings.Clone":                            func(fr *frame, args []value) value { return args[0] },
 		"internal/stringslite.Index":               ext۰strings۰Index,
 		"internal/stringslite.IndexByte":           ext۰strings۰IndexByte,
 		"bytes.Equal":                              ext۰bytes۰Equal,
